@@ -277,13 +277,14 @@ def siblings(ctx, tk):
             for e in ([m.ast.value] if m.kind == "stmt" and isinstance(m.ast, (ast.Assign, ast.Return)) and m.ast.value is not None else []):
                 tm = fa.term(e, m)
                 for x in walk(tm):
-                    if x.k == "cmp" and x.a[0] == "==" and x.a[2].k == "sub" and x.a[2].a[1].k == "tuple":
-                        tup = x.a[2].a[1].a[0]
+                    if x.k == "cmp" and x.a[0] == "==" and any(o.k == "sub" and o.a[1].k == "tuple" for o in (x.a[1], x.a[2])):
+                        q = x.a[2] if (x.a[2].k == "sub" and x.a[2].a[1].k == "tuple") else x.a[1]
+                        tup = q.a[1].a[0]
                         col = len(tup) == 2 and tup[0].k == "slice" and is_const(tup[1], None)
                         row = len(tup) == 2 and is_const(tup[0], None) and tup[1].k == "slice"
                         found = True
                         ctx.decide("C11.f", f, "bucket candidates (row i) are compared with query i (queries as a column)", True if col else (False if row else None),
-                                   "queries are broadcast as %s" % (x.a[2].a[1],), node=e, key="column", engine="E6")
+                                   "queries are broadcast as %s" % (q.a[1],), node=e, key="column", engine="E6")
         if not found:
             ctx.unknown("C11.f", f, "bucket candidates (row i) are compared with query i (queries as a column)", engine="E6")
     ts = [repr(v[0]) for v in norms.values() if v[0] is not None]
